@@ -21,6 +21,7 @@ import (
 	"encoding/hex"
 	"fmt"
 	"math/big"
+	"sort"
 	"strconv"
 	"strings"
 
@@ -53,18 +54,45 @@ func unhex(s string) ([]byte, bool) {
 
 // ---- the unmarshaler the harness registers ---------------------------------
 
+// testMessage is shaped like keep-core's map-carrying protocol messages: the payload is a
+// list of (field, value) byte pairs and Unmarshal stores every pair into the fields map WITHOUT
+// clearing it first (a fresh container from the registered constructor starts empty, so on the
+// real code the content is a function of the payload alone). Decoding fails on an empty payload,
+// on a field byte 0xff and on a trailing single byte - possibly after some pairs were stored.
 type testMessage struct {
-	typ     string
-	payload []byte
+	typ    string
+	fields map[byte]byte
 }
 
 func (m *testMessage) Type() string { return m.typ }
 func (m *testMessage) Unmarshal(b []byte) error {
-	if len(b) == 0 || b[0] == 0xff {
+	if len(b) == 0 {
 		return fmt.Errorf("verif: bad payload")
 	}
-	m.payload = append([]byte(nil), b...)
+	if m.fields == nil {
+		m.fields = make(map[byte]byte)
+	}
+	for i := 0; i < len(b); i += 2 {
+		if b[i] == 0xff || i+1 >= len(b) {
+			return fmt.Errorf("verif: bad payload")
+		}
+		m.fields[b[i]] = b[i+1]
+	}
 	return nil
+}
+
+// content is the canonical form of what the handler received: pairs sorted by field.
+func (m *testMessage) content() string {
+	keys := make([]int, 0, len(m.fields))
+	for k := range m.fields {
+		keys = append(keys, int(k))
+	}
+	sort.Ints(keys)
+	var b []byte
+	for _, k := range keys {
+		b = append(b, byte(k), m.fields[byte(k)])
+	}
+	return hexOf(b)
 }
 
 // ---- library view of an identity -------------------------------------------
@@ -176,9 +204,11 @@ func gen(r *hx.Rng, n int, tier string) []string {
 			outer := peerIDOf(author)
 			sender := marshalIdentity(author)
 			typ := hx.Pick(r, reg)
-			payload := r.Bytes(r.Range(1, 6))
-			if payload[0] == 0xff {
-				payload[0] = 0x01
+			// 1-4 (field, value) pairs over a small field space: later messages of the same
+			// type regularly omit fields that earlier (possibly rejected) ones set
+			var payload []byte
+			for k := r.Range(1, 4); k > 0; k-- {
+				payload = append(payload, byte(r.Intn(6)), byte(r.U64()))
 			}
 			seq := r.U64() >> uint(r.Range(0, 63))
 			faults := 1
@@ -229,11 +259,16 @@ func gen(r *hx.Rng, n int, tier string) []string {
 					if nreg < 3 && r.Bool() {
 						typ = allTypes[nreg]
 					}
-				case 6: // undecodable payload
-					if r.Bool() || len(payload) == 0 {
+				case 6: // undecodable payload (empty / bad field at once / failure after some pairs)
+					switch r.Intn(4) {
+					case 0:
 						payload = nil
-					} else {
+					case 1:
 						payload[0] = 0xff
+					case 2:
+						payload = append(payload, byte(r.Intn(6)))
+					default:
+						payload = append(payload, 0xff, 0x00)
 					}
 				case 7: // garbage outer id
 					if r.Bool() {
@@ -260,6 +295,15 @@ func gen(r *hx.Rng, n int, tier string) []string {
 			}
 			envs = append(envs, fmt.Sprintf("%s/%s/%s/%d/%s/%s",
 				hexOf(outer), typ, hexOf(payload), seq, hexOf(sender), idFact(sender)))
+			if faults > 0 && r.Chance(1, 2) {
+				// rejected-then-valid: an honest message of the same type right behind, setting
+				// a single field (state of the rejected envelope must not show up in it)
+				honest := hx.Pick(r, pool)
+				hs := marshalIdentity(honest)
+				envs = append(envs, fmt.Sprintf("%s/%s/%s/%d/%s/%s",
+					hexOf(peerIDOf(honest)), typ, hexOf([]byte{byte(r.Intn(6)), byte(r.U64())}),
+					(seq+1)&(1<<63-1), hexOf(hs), idFact(hs)))
+			}
 		}
 		ops = append(ops, "proc "+strings.Join(reg, ",")+" "+strings.Join(envs, ","))
 	}
@@ -331,7 +375,7 @@ func exec(op string) (string, string) {
 			tags["delivered"] = true
 			payload := "?"
 			if tm, ok := m.Payload().(*testMessage); ok {
-				payload = hexOf(tm.payload)
+				payload = tm.content()
 			}
 			sid := "?"
 			if pid, err := peer.Decode(m.TransportSenderID().String()); err == nil {
